@@ -385,14 +385,20 @@ class _FromDict:
 def tr_dispatch(fn):
     """normal form of an if/elif/else chain (= match statement = early returns):
        if dct['type'] == '<tag>': [import]; return X.from_dict(dct)   ...   raise"""
-    body = body_no_doc(fn)
+    body = [s for s in body_no_doc(fn) if not isinstance(s, (ast.Import, ast.ImportFrom))]
     if len(body) < 2 or not all(isinstance(s, ast.If) for s in body[:-1]) or not isinstance(body[-1], ast.Raise):
         fail(fn, "Detector.from_dict must be a chain of tests on dct['type'], each returning, followed by raise")
     out = []
+    allowed = None
     for node in body[:-1]:
         if node.orelse:
             fail(node, "dispatch branch must return")
         t = node.test
+        if isinstance(t, ast.Compare) and len(t.ops) == 1 and isinstance(t.ops[0], ast.NotIn) and not out and allowed is None \
+                and ast.unparse(t.left) == "dct['type']" and isinstance(t.comparators[0], (ast.Tuple, ast.List, ast.Set)) \
+                and len(node.body) == 1 and isinstance(node.body[0], ast.Raise):
+            allowed = [_s(e) for e in t.comparators[0].elts]      # if dct['type'] not in (<tags>): raise
+            continue
         if not (isinstance(t, ast.Compare) and len(t.ops) == 1 and isinstance(t.ops[0], ast.Eq)
                 and ast.unparse(t.left) == "dct['type']"):
             fail(t, "dispatch test must be dct['type'] == '<tag>'")
@@ -409,6 +415,8 @@ def tr_dispatch(fn):
         if cls not in dict(KINDS):
             fail(r, "unknown detector class")
         out.append((tag, cls))
+    if allowed is not None and sorted(allowed) != sorted(t for t, _ in out):
+        fail(fn, "the tags let through by the membership test are not the tags dispatched on")
     return out
 
 
